@@ -36,3 +36,17 @@ reg('C05', 'static analysis: CFG dominance (pause gate before the state\'s execu
     'deferred step\'s transition, save-before-overwrite / restore pairing of the status, resolve-and-clear discipline of the pause future',
     'For all placements of pause/play: nothing runs while paused (gate dominates execute), pause() cannot run in the middle of a step or twice, the '
     'in-flight step is entered, status is restored, play() un-pauses and cancels a pending pause. Equality with the uninterrupted run is not decided.', NOTE)
+
+reg('C07', 'static analysis: save/load symmetry -- reference table of persisted fields vs auto_persist sets along the MRO, key<->attribute binding on both '
+    'sides by reaching definitions, key agreement per class, load-context reads supplied or guarded, super() on all CFG paths, defaults-before-restore '
+    'ordering, copy-at-save provenance, YAML tag agreement',
+    'For every process/workchain shape: a field that stops being persisted, a key written but never read (or read into another attribute), an override that '
+    'skips super(), a default that clobbers a restored member or an aliasing save is found from the code. Equality of the two bundles is not decided.', NOTE)
+reg('C08', 'static analysis: stepper persistence table, sibling agreement of create_stepper/recreate_stepper (class, child selector, load-context keywords), '
+    'dominance of the position restore over its use, continuation-by-name symmetry',
+    'For every outline and crash point: the interpreter position and live child are persisted under matching keys, the child restored is the one the running '
+    'stepper would create, continuations are re-bound by name. That the resumed run equals the reference run is not decided.', NOTE)
+reg('C19', 'static analysis: provenance of the per-class auto_persist set, member-kind tag table (save_members vs _get_value), loader-precedence must-facts, '
+    'writer/reader key-path agreement of the meta helpers, error-type discipline of load_object, dispatch over future states',
+    'For every Savable shape and loader configuration: tags written are the tags reversed, the loader recorded is found and used as an instance, precedence is '
+    'context > saved state > default, unknown classes are ValueError, futures have a branch per state. Value round trip through deepcopy is not decided.', NOTE)
